@@ -926,6 +926,7 @@ const (
 	fCampaignRefused                      // ... and the library refused to start the election
 	fPageApplied                          // a held page of committed entries was applied (apply / unlag)
 	fCrashHeld                            // crash of a node that held a Ready
+	fSnapWhileHeld                        // MsgSnap stepped by a node that held a Ready (the held page may end up below the snapshot)
 	fFlags             = iota
 )
 
@@ -935,7 +936,7 @@ var flagNames = [...]string{"two_live_leaders_in_different_terms", "conflict_tru
 	"compactions", "compactions_on_non_leaders", "some_storage_compacted", "msgsnap_deliveries", "stale_msgsnap_deliveries_index_at_or_below_receiver_commit",
 	"stale_msgsnap_handled_after_receiver_compacted_beyond_it", "restarts_from_compacted_storage", "delayed_messages_released",
 	"inputs_to_a_node_holding_a_ready", "campaigns_with_committed_conf_changes_unapplied", "campaigns_refused_because_of_unapplied_conf_changes",
-	"held_pages_applied", "crashes_while_a_ready_was_held"}
+	"held_pages_applied", "crashes_while_a_ready_was_held", "msgsnap_stepped_by_a_node_holding_a_ready"}
 
 // compile-time check: one name per flag
 var _ = [1]struct{}{}[len(flagNames)-fFlags]
@@ -1132,6 +1133,9 @@ func (c *cluster) step(e Event) *cluster {
 		}
 		if n.held {
 			d.flags |= fWhileHeld
+			if p.m.Type == pb.MsgSnap {
+				d.flags |= fSnapWhileHeld
+			}
 		}
 		g := c.sim.exec(n, &input{k: inStep, msg: p.m, enc: p.enc})
 		d.nodes[n.id-1] = g
